@@ -32,7 +32,7 @@ FILEMAP = {
     "src/parsing.rs": ["C14"],
     "src/rounding.rs": ["C06", "C07", "C08", "C10", "C11", "C16"],
     "src/context.rs": ["C07", "C08", "C10", "C11", "C12", "C20"],
-    "src/arithmetic/mod.rs": ["C01", "C02", "C06", "C07", "C08", "C18"],
+    "src/arithmetic/mod.rs": ["C01", "C02", "C06", "C07", "C08", "C18", "C10", "C11"],
     "src/arithmetic/sqrt.rs": ["C10", "C20"], "src/arithmetic/cbrt.rs": ["C11", "C20"], "src/arithmetic/inverse.rs": ["C12", "C20"],
 }
 FNMAP = [  # lib.rs: enclosing function -> properties
